@@ -166,7 +166,45 @@ def traces(rng):
                 nontrivial=res != proto.enc_tree(t, canon=True), tags=["all-traces"] if alltr else [])
 
 
-GENS = [punct_delete, delete_one, terminal_file, terminal_file, filter_len, traces, traces]
+def traces_slash(rng):
+    """the slash annotation is not modelled: only the token clauses of the property are evaluated on the
+    implementation's output (which tokens remain, numbering, pruning)"""
+    cfg = treegen.Cfg(n_min=3, n_max=9, p_unary=0.2, p_punct=0.0, labels=["NP-SBJ-1", "WHNP-1", "S", "VP", "SBAR", "NP-2", "NP"],
+                      p_disc=0.0, none_fields=False)
+    t = treegen.gen_tree(rng, cfg)
+    terms = trees.terminals(t)
+    for term in terms[1:]:
+        if rng.random() < 0.3:
+            term.data['label'] = "-NONE-"
+            term.data['word'] = rng.choice(["*T*-1", "*-2", "*U*", "0", "*T*-7"])
+    t.data['sid'] = 1
+    tag_uids(t)
+    a = proto.enc_tree(t)
+    params = {"slash": True if rng.random() < 0.5 else "*T*"}
+    if rng.random() < 0.5:
+        params['keepall'] = True
+    res, _, ret = tx.run_impl([("ptb_delete_traces", params)], tx.fresh(t, 1))
+    lines = []
+    if ret is not None:
+        # expected tokens: as without slash, except that traces without a filler are deleted too
+        nparams = {k: v for k, v in params.items() if k != "slash"}
+        res2, _, ret2 = tx.run_impl([("ptb_delete_traces", nparams)], tx.fresh(t, 1))
+        kept = set(x.data.get('uid') for x in trees.terminals(ret))
+        kept2 = set(x.data.get('uid') for x in trees.terminals(ret2)) if ret2 is not None else set()
+        ok = kept <= kept2 and [x.data['num'] for x in trees.terminals(ret)] == list(range(1, len(kept) + 1)) and \
+            all((n.children or 'num' in n.data) for n in trees.preorder(ret) if n is not ret)
+        l = Line("pred", "P.C18.eq", ["a", "a" if ok else "b"], note="slash: tokens %s vs without slash %s" % (sorted(kept), sorted(kept2)))
+        lines.append(l)
+    elif not res.startswith("ERR:ValueError"):
+        l = Line("pred", "P.C18.eq", ["a", "b"], note="slash: raised " + res)
+        lines.append(l)
+    else:
+        lines.append(Line("pred", "P.C18.eq", ["a", "a"], note="slash: rejected (no unique filler)"))
+    return Case("ptb_delete_traces:slash", {"tree": proto.pretty_tree(t), "params": params, "result": res[:50]}, lines,
+                nontrivial=True)
+
+
+GENS = [punct_delete, delete_one, terminal_file, terminal_file, filter_len, traces, traces, traces_slash]
 
 
 def gen(seed, tier, scale):
